@@ -557,7 +557,13 @@ func (this *partition) isOnNode(nodeId uint64) bool {
 	return false
 }
 
+// Returns 0 - the id of no node - for a partition that has lost all its replicas
+// (every host was removed from the cluster): the address lookup then fails and
+// the request is refused instead of crashing the process in rand.Intn(0).
 func (this *partition) randomNodeId() uint64 {
 	nodeIds := this.nodeIds()
+	if len(nodeIds) == 0 {
+		return 0
+	}
 	return nodeIds[rand.Intn(len(nodeIds))]
 }
